@@ -323,7 +323,7 @@ Qed.
 Definition label_key (l : label) : option nat :=
   match l with
   | LBegin k _ _ _ => Some k
-  | LWriteHeader k _ => Some k
+  | LWrite k _ => Some k
   | LEnd k _ => Some k
   | _ => None
   end.
@@ -385,13 +385,13 @@ Proof.
 Qed.
 
 (** the request's own WriteHeader is the only thing that changes what it reads, and only W.Status *)
-Theorem write_header_own : forall m k code m' f, step m (LWriteHeader k code) = Ok m' ->
+Theorem write_header_own : forall m k op m' f, step m (LWrite k op) = Ok m' ->
   find_flight k (m_flights m) = Some f ->
   exists f', find_flight k (m_flights m') = Some f'
-    /\ s_status (f_store f') = code /\ s_params (f_store f') = s_params (f_store f)
+    /\ s_status (f_store f') = apply_wop op (s_status (f_store f)) /\ s_params (f_store f') = s_params (f_store f)
     /\ s_id (f_store f') = s_id (f_store f) /\ f_info f' = f_info f /\ f_ticket f' = f_ticket f.
 Proof.
-  intros m k code m' f Hs Hf. unfold step in Hs. cbn [step_gen] in Hs. rewrite Hf in Hs.
+  intros m k op m' f Hs Hf. unfold step in Hs. cbn [step_gen] in Hs. rewrite Hf in Hs.
   inversion Hs; subst; clear Hs. cbn [m_flights].
   induction (m_flights m) as [|h fs IH]; cbn [find_flight update_flight] in *; [discriminate|].
   destruct (Nat.eqb (f_key h) k) eqn:E; cbn [find_flight f_key].
